@@ -247,3 +247,69 @@ Print Assumptions C12_tree_is_repaired.
 Theorem C12_parse_clobbers_error_handler : forall s o, uses_parse o = true -> err_handler (gstep s o) = None.
 Proof. exact GlobalProofs.parse_clobbers_error_handler. Qed.
 Print Assumptions C12_parse_clobbers_error_handler.
+
+(** ** 7. Per-instance state: a result is a function of the argument and the documented state of the object used *)
+
+(** every member variable of the private implementation classes (regenerated list) is classified, and those classified
+    per-call scratch are (re)initialised unconditionally at the head of the top-level call *)
+Theorem C12_instance_members_ok : members_ok GlobalSites.instance_members = true.
+Proof. exact GlobalProofs.instance_members_ok. Qed.
+Print Assumptions C12_instance_members_ok.
+
+Theorem C12_instance_members_are_the_modelled_ones :
+  map (fun e : string * string * bool => let '(c, m, _) := e in (c, m)) GlobalSites.instance_members =
+  [("Logger::LoggerImpl", "mErrors"); ("Logger::LoggerImpl", "mWarnings"); ("Logger::LoggerImpl", "mMessages");
+   ("Logger::LoggerImpl", "mIssues");
+   ("Parser::ParserImpl", "mParser"); ("Parser::ParserImpl", "mParsing1XVersion"); ("Parser::ParserImpl", "mParsing20Version");
+   ("Validator::ValidatorImpl", "mValidator");
+   ("Analyser::AnalyserImpl", "mAnalyser"); ("Analyser::AnalyserImpl", "mModel"); ("Analyser::AnalyserImpl", "mExternalVariables");
+   ("Analyser::AnalyserImpl", "mInternalVariables"); ("Analyser::AnalyserImpl", "mInternalEquations");
+   ("Analyser::AnalyserImpl", "mGeneratorProfile"); ("Analyser::AnalyserImpl", "mStandardUnits"); ("Analyser::AnalyserImpl", "mCiCnUnits");
+   ("Generator::GeneratorImpl", "mModel"); ("Generator::GeneratorImpl", "mCode"); ("Generator::GeneratorImpl", "mProfile");
+   ("Printer::PrinterImpl", "mPrinter");
+   ("Importer::ImporterImpl", "mImporter"); ("Importer::ImporterImpl", "mLibrary"); ("Importer::ImporterImpl", "mImports");
+   ("Annotator::AnnotatorImpl", "mAnnotator"); ("Annotator::AnnotatorImpl", "mIdList"); ("Annotator::AnnotatorImpl", "mModel");
+   ("Annotator::AnnotatorImpl", "mCounter"); ("Annotator::AnnotatorImpl", "mHash");
+   ("Strict::StrictImpl", "mStrict")].
+Proof. exact GlobalProofs.instance_members_are_the_modelled_ones. Qed.
+Print Assumptions C12_instance_members_are_the_modelled_ones.
+
+(** for a service whose members are all per-call scratch (reset at the head), fixed (written by the constructor / the
+    setters of the API only) or transparent caches: op(x) after ANY history ys on the same instance = op(x) on a fresh one *)
+Theorem C12_same_instance_history_irrelevant :
+  forall (A R : Type) (cls : string -> mclass) (init : istate) (body : A -> istate -> R * istate),
+    (forall a s m, is_fixed (cls m) = true -> snd (body a s) m = s m) ->
+    (forall a s1 s2, (forall m, is_cache (cls m) = false -> s1 m = s2 m) -> fst (body a s1) = fst (body a s2)) ->
+    (forall m, is_reset (cls m) || is_fixed (cls m) || is_cache (cls m) = true) ->
+    forall ys x, result_after A R cls init body ys x = result_after A R cls init body [] x.
+Proof. exact GlobalProofs.same_instance_history_irrelevant. Qed.
+Print Assumptions C12_same_instance_history_irrelevant.
+
+(** in general (documented state may change between the calls): the result is a function of the argument and of the
+    members that are neither per-call scratch nor caches *)
+Theorem C12_result_depends_on_persistent_state_only :
+  forall (A R : Type) (cls : string -> mclass) (init : istate) (body : A -> istate -> R * istate),
+    (forall a s1 s2, (forall m, is_cache (cls m) = false -> s1 m = s2 m) -> fst (body a s1) = fst (body a s2)) ->
+    forall x s1 s2,
+      (forall m, is_reset (cls m) = false -> is_cache (cls m) = false -> s1 m = s2 m) ->
+      fst (call A R cls init body x s1) = fst (call A R cls init body x s2).
+Proof. exact GlobalProofs.result_depends_on_persistent_state_only. Qed.
+Print Assumptions C12_result_depends_on_persistent_state_only.
+
+(** the third premise holds of every member (regenerated list) of every service but the Annotator *)
+Theorem C12_services_members_classified : forall c m,
+  (c = "Logger::LoggerImpl" \/ c = "Parser::ParserImpl" \/ c = "Validator::ValidatorImpl" \/ c = "Analyser::AnalyserImpl"
+   \/ c = "Generator::GeneratorImpl" \/ c = "Printer::PrinterImpl" \/ c = "Importer::ImporterImpl" \/ c = "Strict::StrictImpl") ->
+  In m (map (fun e : string * string * bool => let '(_, m, _) := e in m)
+            (filter (fun e : string * string * bool => let '(c', _, _) := e in String.eqb c' c) GlobalSites.instance_members)) ->
+  is_reset (classify c m) || is_fixed (classify c m) || is_cache (classify c m) = true.
+Proof. exact GlobalProofs.services_members_classified. Qed.
+Print Assumptions C12_services_members_classified.
+
+(** the Annotator's automatic-id counter is the exception (known finding C12-annotator-id-counter) *)
+Theorem C12_counter_member_refuted :
+  exists (cls : string -> mclass) (init : istate) (body : nat -> istate -> nat * istate),
+    (forall m, cls m = MCounter) /\
+    result_after nat nat cls init body [0] 0 <> result_after nat nat cls init body [] 0.
+Proof. exact GlobalProofs.counter_member_refuted. Qed.
+Print Assumptions C12_counter_member_refuted.
